@@ -5,7 +5,7 @@ from __future__ import annotations
 from enum import IntEnum
 
 from xknx.cemi.flags import CEMIAddressType, CEMIFrameFormat
-from xknx.exceptions import DataSecureError
+from xknx.exceptions import ConversionError, DataSecureError
 from xknx.telegram.tpci import TPCI
 
 from .security_primitives import (
@@ -242,6 +242,10 @@ class SecureData:
 
     def to_knx(self) -> bytes:
         """Serialize to KNX raw data."""
+        if len(self.sequence_number_bytes) != 6:
+            raise ConversionError("Sequence number must be 6 bytes.")
+        if len(self.message_authentication_code) != 4:
+            raise ConversionError("Message authentication code must be 4 bytes.")
         return (
             self.sequence_number_bytes
             + self.secured_apdu
